@@ -6,6 +6,7 @@ import Marwood.Lemmas.EqualTotal
 import Marwood.Lemmas.StackWFNoPanic
 import Marwood.Lemmas.NoPanicMain
 import Marwood.Lemmas.EnvInvDemo
+import Marwood.Lemmas.PrepareEnvDemo
 import Marwood.Proofs.C07
 import Marwood.Proofs.C11
 import Marwood.Proofs.C20
@@ -1605,5 +1606,70 @@ end NoPanicMachineClosed
 
 /-- the list-builtin demo state (entry code, a top-level lambda, pairs, globals) satisfies the invariant too -/
 example : Marwood.Lemmas.Good.EnvInv Marwood.Lemmas.Good.LDemo.sDemo := Marwood.Lemmas.Good.LDemo.sDemo_envInv
+
+/-! ### T06.6 for whole sessions, from the invariants of the INITIAL state only (wave 12)
+
+`history_never_panics_machine_closed` asks `VmOkP`, `EnvInv` and `SizeBounded` of every state in which a job starts
+(`HistGoodE`): `prepare_eval` — compiler and loader — is outside `runHistory`. With the loader relation `Installs` /
+`InstallsGarbage` (Lemmas/PrepareDefs.lean; checked against every real `prepare_eval` of the stream `prepare-installs`
+by the executable checker `installsB`, proved sound) these are consequences:
+
+* `prepare_vmOkP_idle`, `prepare_npinv` (wave 11) — the bundled invariant and `NPInv`;
+* **`prepare_envInv`** (Lemmas/PrepareEnv.lean) — `EnvInv`. The clauses `EnvInv` states of a code object — no MOVIMM /
+  PUSHIMM immediate points to a capturing lambda except at `MOVIMM _ %acc; CLOSURE`; the lambda loaded at such a site
+  indexes this object's map; no PUSHIMM immediate is an `InstructionPointer` — are THEOREMS about the compiler model's
+  output (Lemmas/CompileEnvmap*.lean: `compileTop_envCode`, by induction on the fuel over the six mutual compiler
+  functions) transported through the loading relation (`LoadedLam`, `ImmLoaded`: Lemmas/PrepareEnvCode.lean
+  `LoadedQ.codeOkH`); the entry lambda and the top-level lambda capture nothing.
+
+`HistInstalls` (Lemmas/PrepareHistory.lean) is the history relation with `prepare_eval` as a step of its own (accepted
+form: `Installs`, then `runEval`; rejected form: `InstallsGarbage`, then the collection of the `Err` arm). -/
+
+section FromInitial
+open Marwood.Vm Marwood.Vm.Concrete Marwood.Lemmas.Sim Marwood.Lemmas.Good
+
+/-- **`prepare_eval` re-establishes the slot invariant** (re-export of `Lemmas/PrepareEnv.lean`) -/
+theorem prepare_envInv {e : Datum} {fuel : Nat} {s s' : St CHeap} {entry : Nat} (i : IdleOk s) (ev : EnvInv s)
+    (ha : neE s.heap s.acc = true) (st : Installs e fuel s s' entry) (sm : Small s'.heap) :
+    EnvInv (prepare s' entry) := Marwood.Lemmas.Good.prepare_envInv i ev ha st sm
+
+/-- **T06.6 for whole sessions: no history of `eval` calls — each with its `prepare_eval` — makes the modelled VM
+    panic**, except through `apply`'s list-length guard. Hypotheses: of the INITIAL state the idle invariant `IdleOk`
+    (heap-simulation invariant, verified code, "no value leads to entry code", empty stack), `NPInv`, `EnvInv`, and
+    `acc` not pointing to a capturing lambda (`acc = Undefined` in a fresh VM); the relation `HistInstalls` (what the
+    stream `prepare-installs` checks of every real `prepare_eval`); the laws of the unmodelled builtins (all theorems for
+    `listExtWith`: `history_never_panics_from_initial_listExt`); the physical size bounds `RecSized` (every heap has at
+    most `2^62` cells). No hypothesis about any later state. -/
+theorem history_never_panics_from_initial (ext : ExtOps) (ecl : ExtCodeLawsV ext) (force : Bool) (el : ExtLaws ext)
+    (eg : ExtGood ext) (ep : ExtProc ext) (en : ExtNoPanic ext) (ee : ExtEnvInv ext) {s0 sf : St CHeap}
+    {recs : List EvRec} (hist : HistInstalls ext force s0 recs sf) (i0 : IdleOk s0) (n0 : NPInv s0) (e0 : EnvInv s0)
+    (a0 : neE s0.heap s0.acc = true) (sz : ∀ rc ∈ recs, RecSized ext force rc) :
+    ∀ f ∈ recFaults recs, ∀ m, f = Fault.panic m → m = "apply: list longer than fuel (cyclic list)" :=
+  history_never_panics_installs_closed ecl force el eg ep en ee hist i0 n0 e0 a0 sz
+
+/-! #### non-vacuity -/
+
+open Marwood.Lemmas.Good.Demo in
+/-- `prepare_envInv` on a concrete `prepare_eval`: the form `#t` on the demo machine (`Demo.demo_installs`, through the
+    executable checker and `installsB_sound`) -/
+example : EnvInv (prepare sT 2) :=
+  prepare_envInv sHalt_idleOk (sHalt_envInv 0 (.inl rfl)) rfl demo_installs demo_small
+
+open Marwood.Lemmas.Good.Demo Marwood.Proofs.C13 in
+/-- every hypothesis of `history_never_panics_from_initial` holds of a history on the demo machine in which
+    `prepare_eval` allocated: the loader steps of `Demo.demo_installs` (two code objects) taken as what a rejected form
+    left behind, then the collection of the `Err` arm -/
+example : ∀ f ∈ recFaults [EvRec.rejected sT], ∀ m, f = Fault.panic m →
+    m = "apply: list longer than fuel (cyclic list)" :=
+  history_never_panics_from_initial failingExt failingExt_codeLawsV false failingExt_laws failingExt_good
+    failingExt_proc failingExt_noPanic failingExt_envInv
+    (HistInstalls.rejected demo_garbage (.nil _)) sHalt_idleOk (sHalt_npinv 0) (sHalt_envInv 0 (.inl rfl)) rfl
+    (by
+      intro rc hrc
+      have : rc = .rejected sT := by simpa using hrc
+      subst this
+      exact ⟨demo_small, by unfold Small; decide +kernel⟩)
+
+end FromInitial
 
 end Marwood.Proofs.C06
